@@ -15,6 +15,7 @@ int main(void)
 	P("HDB_STATE_ACTIVE", QB_HDB_HANDLE_STATE_ACTIVE);
 	P("HDB_EBADF", EBADF);
 	P("HDB_EINVAL", EINVAL);
+	P("HDB_ENOMEM", ENOMEM);
 	P("HDB_ARRAY_MAX_ELEMENTS", QB_ARRAY_MAX_ELEMENTS);
 	P("HDB_SIZEOF_HANDLE_T", sizeof(qb_handle_t));
 	P("HDB_SIZEOF_CHECK", sizeof(((struct qb_hdb_handle *)0)->check));
